@@ -201,6 +201,65 @@ CHECKS.update({
         design="6/C14"),
 })
 
+CHECKS["C01"] = dict(
+    level="model_checking",
+    text="Lookup.tla (implementation-shaped iterative lookup: sorted candidate queue, batches, dominance filter, rounds) is model-checked "
+         "over every knowledge graph, target and set of silent peers of 4-5 nodes, safety and termination; the three deviations of the "
+         "pinned tree must yield counterexamples. Real lookups on clusters of 2..12 real DhtNetworkManagers over an in-memory hub "
+         "(virtual time, unresponsive and lying peers) are recorded as complete transcripts and judged by Trace_Lookup.tla: result "
+         "sorted, distinct, <= K, only answered peers or self, the K closest answered, no closer learned peer left unqueried unless "
+         "the round budget ran out, no self query, no double query, <= 60 requests, exact in a full mesh.",
+    note="Trusted: hub frame log (real wire frames decoded with the library's types), rank projection of XOR distances, app-level "
+         "peer id = transport id in the harness. Peers that cannot be dialled are excused (their query attempt is invisible).",
+    technique="TLA+ spec + TLC exhaustive (safety + liveness); transcripts of the real lookup validated by a TLA+ trace acceptor",
+    design="6/C01")
+CHECKS["C03"] = dict(
+    level="model_checking",
+    text="Store.tla (put as BeginPut / PutRpc / EndPut over the lookup guarantee of C01, atomic get, silent peers) is model-checked over "
+         "all graphs, silent sets and interleavings of three operations; the two pinned-tree deviations must fail. Real put / get / "
+         "store_local / put_with_targets / raw remote PUT histories (values 0..600 bytes) on real clusters are judged by "
+         "Trace_Store.tla against the ground truth read from every node's store after every operation: PutHolds, PutTargets, "
+         "NoSelfRpc, GetSound, GetComplete, HolderAnswers, SizeLimit, StoreIntegrity.",
+    note="Trusted: hub frame log, value tokens, get_local as ground truth. The embedded lookup is assumed to satisfy C01. Lying "
+         "harness endpoints may acknowledge without storing; only real nodes are judged.",
+    technique="TLA+ spec + TLC exhaustive; put/get histories of real clusters validated by a TLA+ trace acceptor with ground-truth store reads",
+    design="6/C03")
+CHECKS["C04"] = dict(
+    level="model_checking",
+    text="Rpc.tla (register, send, arbitrary deliveries by the network, reply / timeout / cancellation, cap) is model-checked for the "
+         "tables with and without sender binding; missing cancel cleanup and missing sender check must fail. On the real code an "
+         "adversary injects reply frames into the unmodified receive loop under arbitrary authenticated-sender ids (right, wrong "
+         "sender, unknown id, duplicate, late), aborts request futures and fills the 256-entry cap; Trace_Rpc.tla decides "
+         "OnlyMatching, ExactlyOnce, MatchingReplyLost, NoResidue, CapRespected for the three pending tables.",
+    note="Trusted: verif_inject = delivery by the transport for that authenticated peer; virtual-time event order on a current-thread "
+         "runtime. DhtCoreEngine::handle_response has no sender parameter: sender binding cannot be stated for that table.",
+    technique="TLA+ spec + TLC exhaustive; adversarial reply injection into the real receive loop validated by a TLA+ trace acceptor",
+    design="6/C04")
+CHECKS["C05"] = dict(
+    level="exploration",
+    text="Inbound.tla states the admission rules (size gate before decoding, timestamp window, source identity from the connection, "
+         "count and value caps) and TLC checks that the transcribed decision procedures satisfy them on the feature grid (three wrong "
+         "variants must fail). The input space itself is explored by the driver: random bytes, valid messages of every kind and "
+         "structure-aware mutations into the frame parser, the DHT message handler, the engine request handler, record and envelope "
+         "decoders; Trace_Inbound.tla applies the rules to every observation (no panic, window with clock band, source = connection, "
+         "nothing oversized stored or acknowledged, peak allocation bounded).",
+    note="The specification decides admission; panics and allocation are measured (catch_unwind, counting allocator). The 16 MiB "
+         "receive cap inside ant_quic_adapter needs a real QUIC endpoint and is not covered.",
+    technique="input exploration (random + structure-aware mutation) judged by a TLA+ rule acceptor; rule consistency model-checked",
+    design="6/C05")
+CHECKS["C20"] = dict(
+    level="model_checking",
+    text="Lifecycle.tla (operations as rounds of send / reply-or-timeout, peers falling silent, stop = Leave to every peer, cancel, "
+         "join background tasks) is model-checked for QuietAfterStop, BoundedTimeouts, TasksEnd and, under weak fairness, completion "
+         "of every operation and of stop; the pinned-tree variant without the shutdown check must fail. Real clusters (2..12 nodes, "
+         "virtual time, seeded delays, silence and stop instants) are run and each run is judged by Trace_Lifecycle.tla: every "
+         "operation ends, within a bound proportional to the request timeout, stop returns within (peers+1) timeouts, no request "
+         "after stop returned, no task left alive.",
+    note="Trusted: virtual time of a current-thread tokio runtime, hub frame log, tokio task metrics. Real-time multi-threaded "
+         "schedules are not explored (the tokio RwLock / semaphore interleavings are explored only as far as the seeded yields reach).",
+    technique="TLA+ spec + TLC exhaustive (safety + liveness); seeded concurrent runs of real clusters validated by a TLA+ trace acceptor",
+    design="6/C20")
+
 NOT_YET = {}
 
 HOOK_COMMITS = []
